@@ -12,9 +12,15 @@ build && tests || { echo "CLEAN BUILD/TESTS FAILED"; exit 1; }
 SEEDS="$@"; [ -n "$SEEDS" ] || SEEDS=$(ls /verif/seeded)
 HEAD=$(git -C /repo rev-parse --short HEAD)
 mkdir -p /tmp/reconf-demos
+# phase 1: every demo against the clean build
+declare -A CLEAN
 for S in $SEEDS; do
   D=/verif/seeded/$S; T=/tmp/reconf-demos/$S; rm -rf $T; mkdir -p $T; cp $D/demo.cpp $D/run_demo.sh $T/
-  sh $T/run_demo.sh >/dev/null 2>&1; c=$?
+  sh $T/run_demo.sh >/dev/null 2>&1; CLEAN[$S]=$?
+done
+# phase 2: each patch alone (the library is rebuilt from the patched sources; the next patch starts from the reverted sources)
+for S in $SEEDS; do
+  D=/verif/seeded/$S; T=/tmp/reconf-demos/$S; c=${CLEAN[$S]}
   git apply $D/patch.diff 2>/dev/null || { echo "$S PATCH-DOES-NOT-APPLY"; continue; }
   if build; then tests; t=$?; sh $T/run_demo.sh >/dev/null 2>&1; m=$?; else t=-1; m=-1; fi
   git checkout -- . ; 
